@@ -206,12 +206,20 @@ def lem_count_boundary(A, thr, n, j):
                Implies(And(c <= j, Z(j) < n), A[j] <= thr))
 
 
-def lem_cumcount_boundary(A, p, T, n, k):
-    """lemma count-boundary at m(i) := presum(i+1) < T (monotone by presum-monotone, A >= 0), stated at k = i+1:
-    c = count_cumlt(A,p,T,n):  0 <= c <= n,  1 <= k <= c => presum(k) < T,  c < k <= n => presum(k) >= T"""
-    c = count_cumlt(A, pR(p), T, n)
-    return And(0 <= c, c <= n, Implies(And(Z(k) >= 1, Z(k) <= c), presum(A, pR(p), k) < T),
-               Implies(And(c < k, Z(k) <= n), presum(A, pR(p), k) >= T))
+def count_cum(op):
+    """#{i<k : presum(i+1) <op> T} for the comparison the code uses"""
+    return count_cumlt if op == "<" else z3.Function("count_cum" + _OPN[op], AS, RealS, RealS, IntS, IntS)
+
+
+def lem_cumcount_boundary(A, p, T, n, k, op="<"):
+    """lemma count-boundary at m(i) := presum(i+1) < T  (or <= T: the tie case the property leaves open); m is
+    monotone by presum-monotone (A >= 0).  Stated at k = i+1, c = the count over [0,n):
+    0 <= c <= n,  1 <= k <= c => presum(k) < T,  c < k <= n => presum(k) >= T"""
+    if op not in ("<", "<="):
+        return True  # not a monotone non-increasing mask: no boundary reading
+    c = count_cum(op)(A, pR(p), T, n)
+    below = presum(A, pR(p), k) < T if op == "<" else presum(A, pR(p), k) <= T
+    return And(0 <= c, c <= n, Implies(And(Z(k) >= 1, Z(k) <= c), below), Implies(And(c < k, Z(k) <= n), Not(below)))
 
 
 # --------------------------------------------------------------------------------------------------------------
@@ -424,15 +432,26 @@ _OPN = {">": "gt", ">=": "ge", "<": "lt", "<=": "le"}
 
 
 def _slice_bounds(idx):
-    """('slice', lo, hi, step) -> (lo, hi)"""
-    _, lo, hi, st = idx
+    """slice value -> (lo, hi).  The engine hands slices inside subscript tuples either as ('slice', lo, hi, step) or as
+    a python ``slice`` object (both spellings exist in vf/pyvc.py): accept both"""
+    if isinstance(idx, slice):
+        lo, hi, st = idx.start, idx.stop, idx.step
+    else:
+        _, lo, hi, st = idx
     if st is not None:
         raise Unsupported("slice with a step")
     return lo, hi
 
 
+def _bounds(lo, hi, n):
+    """slice [lo:hi] of an axis of extent n is exact (numpy would clip / wrap silently)"""
+    if is0(lo):
+        return And(Z(hi) >= 0, Z(hi) <= n)
+    return And(Z(lo) >= 0, Z(lo) <= hi, Z(hi) <= n)
+
+
 def _is_slice(x):
-    return isinstance(x, tuple) and len(x) == 4 and x[0] == "slice"
+    return isinstance(x, slice) or (isinstance(x, tuple) and len(x) == 4 and isinstance(x[0], str) and x[0] == "slice")
 
 
 class NumModel(Contract):
@@ -461,6 +480,15 @@ class NumModel(Contract):
     def ncols(self, cx):
         return cx.ghost.get("n")
 
+    def safety(self, cx, label, kind, cond, line):
+        """emit a safety obligation once per path and condition (U, s, VH are sliced with the same bound)"""
+        seen = cx.ghost.setdefault("safety_seen", set())
+        key = Z(cond).sexpr()
+        if key in seen:
+            return
+        seen.add(key)
+        cx.oblige(label, kind, cond, line)
+
     # ---- helpers
     def vec_slice(self, cx, v, lo, hi, line):
         n = v.length()
@@ -472,7 +500,7 @@ class NumModel(Contract):
                 raise Unsupported("negative slice start")
             lo = n - 1
         # numpy clips / wraps out-of-range slice bounds silently; the contracts intend exact bounds
-        cx.oblige(f"slice@{line}:bounds", "safety", And(Z(lo) >= 0, Z(lo) <= hi, Z(hi) <= n), line)
+        self.safety(cx, f"slice@{line}:bounds", "safety", _bounds(lo, hi, n), line)
         nlo = lo if is0(v.lo) else v.lo + lo
         nhi = hi if is0(v.lo) else v.lo + hi
         return Vec(v.a, nlo, nhi, v.scale, v.power)
@@ -532,9 +560,8 @@ class NumModel(Contract):
             return f(v.a, R(x.thr), Z(v.hi))
         if isinstance(x, CMask):
             v = x.cs.vec
-            f = count_cumlt if x.op == "<" else z3.Function("count_cum" + _OPN[x.op], AS, RealS, RealS, IntS, IntS)
-            c = f(v.a, pR(v.power), R(x.thr), Z(v.hi))
-            cx.ghost["cum"] = NS(a=v.a, p=v.power, T=R(x.thr), n=Z(v.hi), c=c)
+            c = count_cum(x.op)(v.a, pR(v.power), R(x.thr), Z(v.hi))
+            cx.ghost["cum"] = NS(a=v.a, p=v.power, T=R(x.thr), n=Z(v.hi), c=c, op=x.op)
             return c
         raise Unsupported(f"count of {x!r}")
 
@@ -635,16 +662,16 @@ class NumModel(Contract):
             (rlo, rhi), (clo, chi) = _slice_bounds(idx[0]), _slice_bounds(idx[1])
             n = self.ncols(cx)
             if rlo is None and rhi is None and clo is None and chi is not None:
-                cx.oblige(f"slice@{line}:bounds", "safety", And(Z(chi) >= 0, Z(chi) <= n), line)
+                self.safety(cx, f"slice@{line}:bounds", "safety", _bounds(0, chi, n), line)
                 return colslice(base, Z(chi))
             if clo is None and chi is None and rlo is None and rhi is not None:
-                cx.oblige(f"slice@{line}:bounds", "safety", And(Z(rhi) >= 0, Z(rhi) <= n), line)
+                self.safety(cx, f"slice@{line}:bounds", "safety", _bounds(0, rhi, n), line)
                 return rowslice(base, Z(rhi))
             raise Unsupported("matrix slice form")
         return NotImplemented
 
     def m_binop(self, cx, op, a, b, line):
-        if op == "Pow" and isinstance(a, Vec) and isinstance(b, int) and a.plain:
+        if op == "Pow" and isinstance(a, Vec) and P.is_int(b) and a.plain:
             return Vec(a.a, a.lo, a.hi, 1, b)
         if op == "Pow" and isinstance(a, One):
             return One(self.m_root(cx, a.v, b))
@@ -1091,32 +1118,32 @@ class TrimBase(NumModel):
         cap = lambda x: If(mb > 0, Min(x, mb), x)
         capped = And(mb > 0, N == mb)
         # ---- instances of the pre-condition, of definitions and of proved lemmas at the indices the clauses mention
-        for k in (N - 1, N, JSK):
+        sum_powers = sorted({mode_power(m) for m in SUM_MODES if mode_is(mode, m) is not False})
+        for k in (N - 1, N):
             cx.assume(self.pre_instance(a, k))
         for name in ("abs", "rel"):
-            if mode_is(mode, name) is not False:  # lemma count-boundary (premise: sorted): 0 <= count <= n, boundary at j
-                cx.assume(Implies(mode_is(mode, name), lem_count_boundary(SA, rule_threshold(SA, cutoff, name), n, JSK)))
-        for p in (1, 2):
+            if mode_is(mode, name) is not False:  # lemma count-boundary (premise: sorted): 0 <= count <= n
+                cx.assume(Implies(mode_is(mode, name), lem_count_boundary(SA, rule_threshold(SA, cutoff, name), n, 0)))
+        for p in sum_powers:
             for k in (N, N - 1):
                 cx.assume(lem_split(SA, p, n, k))  # lemma split-sum
-                cx.assume(def_tail(SA, p, n, k))
             cx.assume(lem_tail_nonneg(SA, p, n, N))  # lemma tail-monotone
         cum = cx.ghost.get("cum")
         if cum is not None:
             for k in (N, N - 1):
-                cx.assume(lem_cumcount_boundary(cum.a, cum.p, cum.T, cum.n, k))  # lemma count-boundary (cumulative mask)
+                cx.assume(lem_cumcount_boundary(cum.a, cum.p, cum.T, cum.n, k, cum.op))  # lemma count-boundary (cumulative mask)
         rule = cx.ghost.get("rule")
         if rule is not None:
-            for p in (1, 2):
+            for p in sum_powers:
                 cx.assume(lem_tail_mono(SA, p, n, N - 1, rule - 1))  # lemma tail-monotone
         d = {}
-        d["result-is-absorbed-form"] = And(*[Z(x) == y for x, y in zip(triple, rec.out)]) \
-            if len(triple) == 3 and all(P.is_val(x) for x in triple) else False
-        d["absorb-code-passed"] = Z(rec.absorb) == a.absorb
-        d["kept-prefix"] = And(sv.a == A, Z(sv.lo) == 0, is1(sv.power))
-        d["n-range"] = And(1 <= N, N <= n)
-        d["n-cap"] = Implies(mb > 0, N <= mb)
-        d["n-static"] = Implies(Not(dyn), N == cap(n))
+        # ---- factors: the returned triple is the absorb-form (for the absorb code passed in) of U[:, :N], f*s[:N], VH[:N]
+        d["factors"] = And(And(*[Z(x) == y for x, y in zip(triple, rec.out)])
+                           if len(triple) == 3 and all(P.is_val(x) for x in triple) else False,
+                           Z(rec.absorb) == a.absorb, rec.U == colslice(a.U, N), rec.VH == rowslice(a.VH, N),
+                           sv.a == A, Z(sv.lo) == 0, is1(sv.power))  # the values are a multiple of the prefix s[:N]
+        # ---- kept number: 1 <= N <= len(s); capped; without dynamic truncation N = min(len(s), cap)
+        d["n-bounds"] = And(1 <= N, N <= n, Implies(mb > 0, N <= mb), Implies(Not(dyn), N == cap(n)))
         cnt, within, least = [], [], []
         for name in MODE_NAMES:
             g = mode_is(mode, name)
@@ -1133,8 +1160,8 @@ class TrimBase(NumModel):
         if cnt:
             d["n-rule-count"] = And(*cnt)
         if within:
-            d["n-rule-within-target"] = And(*within)
-            d["n-rule-least"] = And(*least)
+            # least k >= 1 whose discarded tail is within the target (ties open), then capped
+            d["n-rule-sum"] = And(And(*within), And(*least))
         if rule is not None:
             d["n==min(rule,cap)"] = Implies(dyn, N == cap(rule))
         # ---- kept values = f * s[:N]
@@ -1149,8 +1176,6 @@ class TrimBase(NumModel):
             d["error"] = Not(want_error)
         else:
             d["error"] = And(want_error, R(err) == spec_err) if P.is_num(err) else False
-        # ---- factors
-        d["factors"] = And(rec.U == colslice(a.U, N), rec.VH == rowslice(a.VH, N))
         return d
 
     def replay(self, model):
